@@ -129,7 +129,7 @@ def check_property(prop, tier, seed, jobs, verbose):
     from pyvc import runner
 
     thorough = tier == "thorough"
-    timeout_ms = 30000 if not thorough else 120000
+    timeout_ms = 15000 if not thorough else 120000
     repo = Repo()
     checker_errors = list(repo.errors)
 
@@ -188,6 +188,7 @@ def check_property(prop, tier, seed, jobs, verbose):
     undecided = []
     lib_used, inlined, callees = set(), set(), set()
     samples = []
+    slow = []
     for r in results:
         label = r["key"] + (f" [receiver {r['ctx']}]" if r["ctx"] else "") + (f" [alias {r['alias']}]" if r["alias"] else "")
         if r["error"]:
@@ -211,6 +212,7 @@ def check_property(prop, tier, seed, jobs, verbose):
         for o in r["obligations"]:
             obligations += 1
             solver_s += o["time"]
+            slow.append((o["time"], canon(o["name"]), o["backend"], o["status"]))
             if o["status"] == "proved":
                 discharged += 1
                 by_backend[o["backend"]] = by_backend.get(o["backend"], 0) + 1
@@ -409,6 +411,8 @@ def check_property(prop, tier, seed, jobs, verbose):
         "inlined_accessors": sorted(inlined),
         "callee_contracts_used": sorted(callees),
         "by_backend": by_backend, "solver_s": round(solver_s, 2),
+        "slowest_obligations": [{"solver_s": t, "obligation": n, "backend": b, "status": st_}
+                                for t, n, b, st_ in sorted(slow, reverse=True)[:8]],
         "bounded_stand_ins": bounded_recs,
         "undecided_functions": [lbl + ": " + r["unsupported"] for r, lbl in undecided],
         "known_findings": sorted(set(known_lines)),
